@@ -35,6 +35,15 @@ def gen_case(rng, paired, thorough):
     return {"paired": False, "cfg": cfg, "records": reads}
 
 
+def tag_names(case):
+    """header comments containing '>' and '@' on the first mate / every other read (chunk splitting must not count them)"""
+    tag = lambda n, k: n + ((" " if " " not in n else "") + "len>%d@x" % k)
+    if case["paired"]:
+        case["records"] = [((tag(a[0], i), a[1], a[2]), b) for i, (a, b) in enumerate(case["records"])]
+    else:
+        case["records"] = [((tag(r[0], i), r[1], r[2]) if i % 2 == 0 else r) for i, r in enumerate(case["records"])]
+
+
 def write_inputs(case, d):
     cfg = case["cfg"]
     if case["paired"]:
@@ -170,6 +179,9 @@ def check(ctx):
             paired = rng.random() < 0.35
             case = gen_case(rng, paired, not ctx.quick)
             case["side_files"] = rng.random() < 0.3
+            bb = case["cfg"].base if paired else case["cfg"]
+            if rng.random() < (0.5 if bb.fasta else 0.15) and not bb.strip_suffix and bb.rename is None:
+                tag_names(case)
             b = case["cfg"].base if paired else case["cfg"]
             case["fasta_out"] = rng.choice(["", "", ".gz"]) if (not b.fasta and rng.random() < 0.2) else None
             ok = check_case(ctx, case, d, variants_for(rng, ctx.quick), dist)
